@@ -111,6 +111,10 @@ func (s *Script) Compile() (*Compiled, error) {
 	}
 
 	// reduce globals size
+	if symbolTable.MaxSymbols() >= GlobalsSize {
+		return nil, fmt.Errorf("exceeding global variables limit: %d",
+			GlobalsSize)
+	}
 	globals = globals[:symbolTable.MaxSymbols()+1]
 
 	// global symbol names to indexes
@@ -181,6 +185,10 @@ func (s *Script) prepCompile() (
 	}
 
 	globals = make([]Object, GlobalsSize)
+	if len(names) >= GlobalsSize {
+		return nil, nil, fmt.Errorf(
+			"exceeding global variables limit: %d", GlobalsSize)
+	}
 
 	for idx, name := range names {
 		symbol := symbolTable.Define(name)
